@@ -381,7 +381,13 @@ func c05Exec(raw json.RawMessage) Result {
 		where := fmt.Sprintf("call %d", ci)
 		switch call.C {
 		case "set":
-			w.atomics[call.I].SetLevel(zapcore.Level(call.T))
+			// the level of an AtomicLevel that cores already use is changed either way: SetLevel, or (for the named levels) the
+			// text path that flags, config reloads and the HTTP endpoint take
+			if call.T >= -1 && call.T <= 5 && ci%2 == 1 {
+				must(w.atomics[call.I].UnmarshalText([]byte(zapcore.Level(call.T).String())))
+			} else {
+				w.atomics[call.I].SetLevel(zapcore.Level(call.T))
+			}
 			spec.atomics[call.I] = call.T
 			changed = true
 			results = append(results, map[string]any{"c": "set"})
